@@ -140,8 +140,11 @@ C14Applies(e) ==
   /\ (e.o.alg = "opt" => NoOverflow(e))
 Judge_c14(e) ==
   On("C14", IF ~Ok(e) THEN << Chk("C14", "VERDICT", "fill panicked", FALSE) >> ELSE
-    IF ~C14Applies(e) THEN <<>> ELSE <<
-    Chk("C14", "VERDICT", "fill(fill(t, o), o) differs from fill(t, o)", e.f2 = e.f1) >>)
+    IF ~C14Applies(e) THEN <<>> ELSE
+    \* K3's root cause (the hyphen splitter cuts an escape sequence at a '-' inside it) gets its own reason
+    IF e.o.splitter = "hyphen" /\ HyphenInsideSeq(e.text)
+    THEN << Chk("C14", "VERDICT", "fill(fill(t, o), o) differs from fill(t, o) (escape sequence containing a hyphen, hyphen splitter)", e.f2 = e.f1) >>
+    ELSE << Chk("C14", "VERDICT", "fill(fill(t, o), o) differs from fill(t, o)", e.f2 = e.f1) >>)
 
 (* ------------------------------------------------------------------------- *)
 (* C15 / C16: unfill, refill                                                 *)
